@@ -958,6 +958,23 @@ impl ThetaSketchBuilder {
     }
 }
 
+#[cfg(feature = "verif-hooks")]
+impl ThetaSketch {
+    /// Verification hook: offer a pre-computed 63-bit hash, screened exactly as `update` screens
+    /// the hash of an item (0 and values >= theta are ignored).
+    pub fn verif_insert_hash(&mut self, hash: u64) {
+        let hash = self.table.verif_screen(hash);
+        if hash != 0 {
+            self.table.try_insert(hash);
+        }
+    }
+
+    /// Verification hook: log2 of the current hash table size.
+    pub fn verif_lg_cur_size(&self) -> u8 {
+        self.table.verif_lg_cur_size()
+    }
+}
+
 #[cfg(test)]
 mod tests {
     use super::*;
